@@ -879,8 +879,10 @@ def gen_names(rng, t):
         for k in sub:
             r = rng.random()
             cand = anc[0] if r < 0.3 else rng.choice(anc) if r < 0.5 else rng.choice(pool)
-            while cand in used:
-                cand = rng.choice(pool)
+            if cand in used:
+                # no rejection sampling: a node can have more children than the pool has names
+                free = [nm for nm in pool if nm not in used]
+                cand = rng.choice(free) if free else "s%d" % len(used)
             used.add(cand)
             out.append(cand)
             walk(k, anc + [cand])
